@@ -9,9 +9,10 @@ WAVE2 = "--wave2" in sys.argv
 WAVE3 = "--wave3" in sys.argv
 WAVE4 = "--wave4" in sys.argv
 WAVE5 = "--wave5" in sys.argv
-CFDIR = "/tmp/cf5" if WAVE5 else "/tmp/cf4" if WAVE4 else "/tmp/cf3" if WAVE3 else "/tmp/cf2" if WAVE2 else "/tmp/cf"
-SRCROOT = "/tmp/mutout5" if WAVE5 else "/tmp/mutout4" if WAVE4 else "/tmp/mutout3" if WAVE3 else "/tmp/mutout2" if WAVE2 else "/tmp/mutout"
-KOFF = 12 if WAVE5 else 9 if WAVE4 else 6 if WAVE3 else 3 if WAVE2 else 0
+WAVE6 = "--wave6" in sys.argv
+CFDIR = "/tmp/cf6" if WAVE6 else "/tmp/cf5" if WAVE5 else "/tmp/cf4" if WAVE4 else "/tmp/cf3" if WAVE3 else "/tmp/cf2" if WAVE2 else "/tmp/cf"
+SRCROOT = "/tmp/mutout6" if WAVE6 else "/tmp/mutout5" if WAVE5 else "/tmp/mutout4" if WAVE4 else "/tmp/mutout3" if WAVE3 else "/tmp/mutout2" if WAVE2 else "/tmp/mutout"
+KOFF = 0 if WAVE6 else 12 if WAVE5 else 9 if WAVE4 else 6 if WAVE3 else 3 if WAVE2 else 0
 ALL = ["C01", "C02", "C03", "C04", "C05", "C07", "C08", "C09", "C10", "C11", "C12", "C13", "C14", "C15", "C16", "C17", "C18", "C19", "C20"]
 
 
@@ -58,14 +59,15 @@ def one(jf):
     meta = {
         "property": P,
         "seed": f"{P}-{k}",
-        "round": 5 if WAVE5 else 4 if WAVE4 else 3 if WAVE3 else 2 if WAVE2 else 1,
+        "round": 6 if WAVE6 else 5 if WAVE5 else 4 if WAVE4 else 3 if WAVE3 else 2 if WAVE2 else 1,
         "summary": title[:300],
         "needs_to_manifest": needs or "see notes.md",
         "what_was_run": {
             "worktree": "git -C /repo worktree add --detach <scratch> HEAD; git apply patch.diff (removed afterwards)",
             "demo_with_patch": f"/venv/bin/python demo.py -> exit {j['demo_with_patch_exit']}",
             "demo_without_patch": f"/venv/bin/python demo.py -> exit {j['demo_without_patch_exit']}",
-            "tests": "/venv/bin/python -m pytest -q -p no:cacheprovider --timeout=900 (whole pinned suite) with the patch applied",
+            "tests": ("/venv/bin/python -m pytest -q -p no:cacheprovider (whole pinned suite, run as four parallel shards by tools/confirm_seed6.sh) with the patch applied"
+                      if WAVE6 else "/venv/bin/python -m pytest -q -p no:cacheprovider --timeout=900 (whole pinned suite) with the patch applied"),
             "tests_summary": j.get("tests_summary"),
             "baseline_stable_tests_not_passing": j.get("stable_tests_not_passing"),
         },
